@@ -76,6 +76,7 @@ type pqRun struct {
 	c1    test.Cluster
 	c3    test.Cluster
 	evals int
+	noStd bool // the time field of this round was created with noStandardView
 }
 
 func (r *pqRun) fail(props []string, sig, what string) {
@@ -111,8 +112,8 @@ func (r *pqRun) query(q string) (interface{}, bool) {
 		return nil, false
 	}
 	if r.c3 != nil {
-		// ask a non-coordinator node of the 3-node cluster
-		res3, err3 := r.c3[1].API.Query(context.Background(), &pilosa.QueryRequest{Index: "i", Query: q})
+		// ask the nodes of the 3-node cluster in turn (any node may coordinate)
+		res3, err3 := r.c3[r.evals%3].API.Query(context.Background(), &pilosa.QueryRequest{Index: "i", Query: q})
 		if err3 != nil {
 			r.fail([]string{"C17"}, "query-error-3node:"+strings.SplitN(q, "(", 2)[0], fmt.Sprintf("%s: %v", q, err3))
 		} else if !reflect.DeepEqual(pqNorm(res1.Results[0]), pqNorm(res3.Results[0])) {
@@ -568,6 +569,9 @@ func (r *pqRun) checkAll(m *pqModel, rng *rand.Rand) {
 		}
 	}
 	for _, row := range pqRows[:3] {
+		if r.noStd {
+			break // without a standard view Row(t=r) is decided by the views that exist, not by the model
+		}
 		r.expectCols([]string{"C19"}, "time-standard", fmt.Sprintf("Row(t=%d)", row), sortedCols(m.tStd[row]))
 	}
 }
@@ -580,7 +584,7 @@ func (r *pqRun) round(rng *rand.Rand, writes int) {
 	}
 	for w := 0; w < writes; w++ {
 		c := pqCols[rng.Intn(len(pqCols))]
-		switch rng.Intn(9) {
+		switch rng.Intn(10) {
 		case 0, 1:
 			row := pqRows[rng.Intn(len(pqRows))]
 			r.write(fmt.Sprintf("Set(%d, s=%d)", c, row))
@@ -600,7 +604,21 @@ func (r *pqRun) round(rng *rand.Rand, writes int) {
 			m.m[c], m.mHas[c] = row, true
 		case 4, 5:
 			v := pqVals[rng.Intn(len(pqVals))]
-			r.write(fmt.Sprintf("Set(%d, v=%d)", c, v))
+			if rng.Intn(3) == 0 {
+				// the value-import path (C14/C28: same answers as Set)
+				r.seq = append(r.seq, fmt.Sprintf("ImportValue(col %d, v=%d)", c, v))
+				for _, cl := range []test.Cluster{r.c1, r.c3} {
+					if cl == nil {
+						continue
+					}
+					req := &pilosa.ImportValueRequest{Index: "i", Field: "v", Shard: c / pqSW, ColumnIDs: []uint64{c}, Values: []int64{v}}
+					if err := cl[0].API.ImportValue(context.Background(), req); err != nil {
+						r.fail([]string{"C14"}, "importvalue-error", fmt.Sprintf("ImportValue(col %d, v=%d): %v", c, v, err))
+					}
+				}
+			} else {
+				r.write(fmt.Sprintf("Set(%d, v=%d)", c, v))
+			}
 			m.v[c], m.vHas[c] = v, true
 		case 6, 7:
 			row := pqRows[rng.Intn(3)]
@@ -615,8 +633,24 @@ func (r *pqRun) round(rng *rand.Rand, writes int) {
 			}
 			m.t[row][c][ts] = true
 			m.tStd[row][c] = true
-		case 8:
+		case 8, 9:
 			row := pqRows[rng.Intn(3)]
+			// prefer a bit that is set (a Clear of an absent bit exercises little)
+			if rng.Intn(4) != 0 {
+				type rc struct{ r, c uint64 }
+				var have []rc
+				for _, r0 := range pqRows[:3] {
+					for _, c0 := range pqCols {
+						if len(m.t[r0][c0]) > 0 {
+							have = append(have, rc{r0, c0})
+						}
+					}
+				}
+				if len(have) > 0 {
+					x := have[rng.Intn(len(have))]
+					row, c = x.r, x.c
+				}
+			}
 			r.write(fmt.Sprintf("Clear(%d, t=%d)", c, row))
 			if m.t[row] != nil {
 				delete(m.t[row], c)
@@ -667,9 +701,10 @@ func TestRcheckPQL(t *testing.T) {
 			cl.CreateField(t, "i", pilosa.IndexOptions{}, "s", pilosa.OptFieldTypeSet(pilosa.CacheTypeRanked, 100))
 			cl.CreateField(t, "i", pilosa.IndexOptions{}, "m", pilosa.OptFieldTypeMutex(pilosa.CacheTypeRanked, 100))
 			cl.CreateField(t, "i", pilosa.IndexOptions{}, "v", pilosa.OptFieldTypeInt(-1000, 1000))
-			cl.CreateField(t, "i", pilosa.IndexOptions{}, "t", pilosa.OptFieldTypeTime(pilosa.TimeQuantum("YMDH")))
+			cl.CreateField(t, "i", pilosa.IndexOptions{}, "t", pilosa.OptFieldTypeTime(pilosa.TimeQuantum("YMDH"), round%4 >= 2))
 		}
-		r.seq = []string{fmt.Sprintf("round %d (3-node comparison: %v)", round, r.c3 != nil)}
+		r.noStd = round%4 >= 2
+		r.seq = []string{fmt.Sprintf("round %d (3-node comparison: %v, time field noStandardView: %v)", round, r.c3 != nil, r.noStd)}
 		r.round(rng, 10+rng.Intn(16))
 		key := strings.Join(r.seq, ";")
 		if !r.seen[key] {
